@@ -279,7 +279,7 @@ def toggle_programs(draw):
 def exit_programs(draw):
     """Nested until() blocks whose notifications fire in one time step while the innermost body leaves through a
     block with asynchronous (timeless) clean-up: the interrupt of an outer block must not get lost."""
-    depth = draw(st.integers(2, 3))
+    depth = draw(st.integers(2, 4))
     t = draw(st.sampled_from(CTL_TIMES))
     order = draw(st.permutations(list(range(depth))))
     ctl = [{'op': 'at_eq', 't': t}]
